@@ -217,6 +217,9 @@ func unmarshalIQ(ctx context.Context, iq xml.TokenReader, v interface{}, s *Sess
 	default:
 		return err
 	}
-	start = startTok.(xml.StartElement)
+	start, ok = startTok.(xml.StartElement)
+	if !ok {
+		return fmt.Errorf("xmpp: expected IQ payload start token, got %T %[1]v", startTok)
+	}
 	return d.DecodeElement(v, &start)
 }
